@@ -3,14 +3,26 @@ from pv import obs_tables as T
 
 
 def run(report):
-    add_obs(report, lambda: T.all_versions(which=('ll1',))[0], name='tables')
+    add_obs(report, lambda: T.all_versions(which=('ll1', 'plans'))[0], name='tables')
     verify_keys(report, ['parso.parser.BaseParser._add_token', 'parso.parser.BaseParser._pop', 'parso.parser.StackNode.__init__',
                          'parso.python.parser.Parser.convert_leaf', 'parso.python.parser.Parser.__init__', 'parso.parser.BaseParser.__init__', 'parso.tree.Leaf.__init__', 'parso.tree.ErrorLeaf.__init__',
-                         'parso.tree.BaseNode.__init__', 'parso.tree.Node.__init__'])
+                         'parso.tree.BaseNode.__init__', 'parso.tree.Node.__init__',
+                         # the recovery path: both implementations of the dispatched error_recovery, stack removal
+                         'parso.parser.BaseParser.error_recovery', 'parso.python.parser.Parser.error_recovery#strict',
+                         'parso.python.parser.Parser.error_recovery#recover', 'parso.python.parser.Parser.error_recovery.current_suite',
+                         'parso.python.parser.Parser._stack_removal', 'parso.parser.StackNode.nonterminal',
+                         'parso.parser.ParserSyntaxError.__init__'], procs=14)
     report.assume("engine: _add_token / _pop are proved free of IndexError / KeyError / AttributeError and to keep the stack "
                   "shape under the preconditions 'stack non-empty and well formed', 'tables well formed' (T obligations) and "
                   "'the root entry is not complete' (ENDMARKER is the last token: tokenizer contract, bounded); "
-                  "error_recovery, _stack_removal, convert_node and BaseParser.parse are used through assumed contracts or "
-                  "not covered: totality of the whole pipeline rests on the bounded stand-in",
+                  "Parser.error_recovery (strict and recovering mode), its closure current_suite and _stack_removal are proved "
+                  "against the contract _add_token assumes at the dynamic dispatch site, under preconditions that the "
+                  "dispatch site does not establish and that are therefore assumed of the caller: the int list "
+                  "_omit_dedent_list is none of the object lists, a DEDENT never arrives while the top entry is empty, the "
+                  "root entry belongs to the start rule, recovery mode implies start symbol file_input (checked by Grammar._parse); "
+                  "the recursion error_recovery -> _add_token -> error_recovery is verified for partial correctness only "
+                  "(termination not proved); convert_node (dynamic class lookup, node constructors that inspect grammar-shaped "
+                  "children) and BaseParser.parse are used through assumed contracts or not covered: totality of the whole "
+                  "pipeline rests on the bounded stand-in",
                   "A-REC: recursion depth / memory not modelled")
     run_bounded(report, ['parse', 'blk', 'fstr'], extra='nesting')
